@@ -184,3 +184,18 @@ M("c16.status-attr-from-feature", "C16", JU, '        case.set(u"status", scenar
 M("c16.skipped-counter-when-hidden", "C16", JU, "        elif scenario.status in skipped_statuses and self.show_skipped:\n            report.counts_skipped += 1",
   "        elif scenario.status in skipped_statuses:\n            report.counts_skipped += 1")
 M("c16.cleanup-error-crash", "C16", JU, '(scenario.error_message or "").strip()', 'scenario.error_message.strip()')
+
+# ---- C17 -------------------------------------------------------------------
+RR = "behave/formatter/rerun.py"
+RU = "behave/runner_util.py"
+M("c17.stale-file-not-removed", "C17", RR, "        elif stream_name and os.path.exists(stream_name):\n", "        elif False:\n")
+M("c17.feature-locations-instead-of-scenarios", "C17", RR, '            self.stream.write(u"%s\\n" % scenario.location)', '            self.stream.write(u"%s\\n" % scenario.feature.location)')
+M("c17.rows-not-listed", "C17", RR, "            for scenario in self.current_feature.walk_scenarios():\n                if scenario.status.has_failed():",
+  "            for scenario in self.current_feature.scenarios:\n                if scenario.status.has_failed():")
+M("c17.listparser-comments-not-skipped", "C17", RU, "            if not filename or filename.startswith('#'):\n", "            if not filename:\n")
+M("c17.only-failed-status", "C17", RR, "                if scenario.status.has_failed():", "                if scenario.status == Status.failed:")
+M("c17.only-failed-features", "C17", RR, "self.current_feature.status.has_failed():", "self.current_feature.status == Status.failed:")
+M("c17.failed-scenarios-not-reset-per-feature-dup", "C17", RR, "        # -- RESET:\n        self.current_feature = None\n        assert self.current_feature is None",
+  "        # -- RESET:\n        assert True")
+M("c17.location-collector-first-line-only", "C17", RU, "        for line in selected_lines:\n            more_scenarios = line_database.select_scenarios_by_line(line)\n            selected_scenarios.update(more_scenarios)",
+  "        for line in selected_lines[:1]:\n            more_scenarios = line_database.select_scenarios_by_line(line)\n            selected_scenarios.update(more_scenarios)")
